@@ -17,8 +17,8 @@ fn fmt_stub2(_a: core::fmt::Arguments<'_>) -> String {
 // @cost 34
 // @timeout 1200
 // @needs WC
-// @desc the whole body of do_write_cow (lock, lookups, allocator, data write, flushes and release shimmed and recorded) for a partial write over a compressed or backing-provided cluster: a new cluster is allocated and mapped under the slice lock, the merged data is written (with the COW source), THEN the refcounts are flushed, THEN the L2 slice holding the new mapping is written (whole slice, at its host offset) and marked clean, and only THEN the replaced compressed clusters are released -- exactly the clusters the old descriptor occupied, once; a backing-provided cluster releases nothing; if the cluster was already copied by someone else the request is simply re-issued as a plain write; if the data write fails the allocated cluster is freed and unregistered, the old entry is restored bit for bit and the error is returned
-// @bounds 512-byte slice (64 entries), one block written at any in-cluster block offset; old entry: any spec-valid compressed descriptor or an unallocated entry of an image with a backing file; the slice may meanwhile hold any spec-valid entry (race); 64 KiB clusters; allocated cluster any aligned offset < 2^56; data-write outcome symbolic
+// @desc the whole body of do_write_cow (lock, lookups, allocator, data write, flushes and release shimmed and recorded) for a partial write over a compressed or backing-provided cluster: a new cluster is allocated and mapped under the slice lock, the merged data is written (with the COW source), THEN the refcounts are flushed, THEN the L2 slice holding the new mapping is written (whole slice, at its host offset) and marked clean, and only THEN the replaced compressed clusters are released -- exactly the clusters the old descriptor occupied, once; a backing-provided cluster releases nothing; if the cluster was already copied by someone else the request is simply re-issued as a plain write; if the data write fails the allocated cluster is freed and unregistered, the old entry is restored bit for bit and the error is returned; if the refcount flush or the in-place write of the L2 slice fails the error is returned, nothing is released and the slice that now differs from the disk stays dirty
+// @bounds 512-byte slice (64 entries), one block written at any in-cluster block offset; old entry: any spec-valid compressed descriptor or an unallocated entry of an image with a backing file; the slice may meanwhile hold any spec-valid entry (race); 64 KiB clusters; allocated cluster any aligned offset < 2^56; data-write, refcount-flush and slice-write outcomes symbolic
 // @funcs Qcow2Dev::do_write_cow (whole body) L2Table::{get_mapping,set} L2Entry::{from_mapping,compressed_range}
 // @stub alloc::fmt::format -> String::new()
 #[kani::proof]
@@ -52,6 +52,12 @@ fn c10_cow_sequence() {
     env.alloc_off = host;
     let fail: bool = kani::any();
     env.fail_write.set(fail);
+    // the data write works but the refcount flush / the in-place write of the L2 slice does not
+    let fail_rc: bool = kani::any();
+    let fail_l2: bool = kani::any();
+    kani::assume(!fail || (!fail_rc && !fail_l2));
+    env.fail_rc.set(fail_rc);
+    env.fail_table.set(fail_l2);
     let data = [0u8; 512];
     let r = env.seg_wc(off, &seen_m, &data);
     let h = env.l2_slice.as_ref().unwrap();
@@ -78,6 +84,17 @@ fn c10_cow_sequence() {
             assert!(env.get_rec(3).kind == K_CLEARNEW && env.get_rec(3).off == host >> cb);
             // the mapping the caller saw is back in place
             assert!(entry_after == seen);
+        } else if fail_rc || fail_l2 {
+            // the new mapping did not reach the disk: the error is returned, nothing of the old
+            // allocation is released, and a slice that differs from the disk stays dirty (so that
+            // flush_meta writes it once the backend works again)
+            assert!(r.is_err());
+            assert!(env.count(K_FREE) == 0);
+            assert!(entry_after == seen || (h.is_dirty() && env.need_flush_meta()));
+            assert!(entry_after == seen || entry_after == spec::COPIED | host);
+            if fail_rc {
+                assert!(env.count(K_BACKEND_WRITE) == 0);
+            }
         } else {
             assert!(r.is_ok());
             assert!(entry_after == spec::COPIED | host);
@@ -103,6 +120,8 @@ fn c10_cow_sequence() {
     kani::cover!(still_cow && !fail && seen_d.kind == spec::Kind::Compressed);
     kani::cover!(still_cow && !fail && seen_d.kind == spec::Kind::Unallocated);
     kani::cover!(still_cow && fail);
+    kani::cover!(still_cow && !fail && fail_l2 && !fail_rc);
+    kani::cover!(still_cow && !fail && fail_rc);
     kani::cover!(!still_cow);
     core::mem::forget(r);
     core::mem::forget(seen_m);
